@@ -64,6 +64,7 @@ type state struct {
 	known     map[string]knownEntry // open entries of this property, by key
 	knownHit  map[string]int64
 	replayDoc map[string]any // when replaying
+	fuzz      bool
 	infra     []string
 }
 
@@ -138,6 +139,12 @@ func Main(m *testing.M, prop, level string) {
 	}
 	st.start = time.Now()
 	loadKnown()
+	if fuzzMode() {
+		// native fuzzing (coordinator or worker process): no evidence/result files from here; a failing
+		// fuzz target writes its replay file itself through Violation and then fails the test
+		st.fuzz = true
+		os.Exit(m.Run())
+	}
 	if p := os.Getenv("VERIF_REPLAY"); p != "" {
 		b, err := os.ReadFile(p)
 		if err != nil {
@@ -442,6 +449,9 @@ func oneLine(s string, n int) string {
 	return s
 }
 
+// Fuzzing reports whether the process is a native-fuzzing coordinator or worker.
+func Fuzzing() bool { return st.fuzz }
+
 // RapidChecks sets the number of cases the next rapid.Check calls will run.
 func RapidChecks(n int) {
 	_ = flagSet("rapid.checks", strconv.Itoa(n))
@@ -464,7 +474,7 @@ var journalFile *os.File
 // goroutines, a fatal runtime error), the driver still has the failing case:
 // it becomes the replay file of a "crash" violation.
 func Journal(check string, c any) {
-	if st.replayDoc != nil {
+	if st.replayDoc != nil || st.fuzz {
 		return
 	}
 	if journalFile == nil {
